@@ -24,8 +24,8 @@
                             string starts and ends on rune boundaries of Go's decoding of that string;
       - [rune_starts_spec]  the executable [rune_starts] lists exactly the boundaries < length;
       - [decode_encode]     decode_rune (encode_rune r ++ q) = (r', |encode_rune r|), r' = r for scalar values and
-                            RuneError otherwise (proved by exhaustive kernel computation over 0..0x110000 + arithmetic
-                            for larger values). *)
+                            RuneError otherwise;
+      - [valid_encode_all]  encode_all yields valid UTF-8 ([valid_utf8_app]: concatenation preserves validity). *)
 From ZV Require Import Lib.Base.
 From Coq Require Import ZifyBool ZifyNat ZifyN.
 Local Open Scope N_scope.
@@ -436,3 +436,121 @@ Proof.
 Qed.
 Lemma rune_starts_sorted p : ForallOrdPairs lt (rune_starts p).
 Proof. apply rune_starts_from_sorted. Qed.
+
+(** ** Encoder / decoder round trip (arithmetic proof: lia with div/mod by constants, one case per lead class) *)
+Definition expected_decode (r : N) : N * nat :=
+  (if valid_rune r then r else RuneError, length (encode_rune r)).
+Definition roundtrip_ok (r : N) : bool :=
+  match decode_step (encode_rune r) with
+  | Some (r', w) => N.eqb r' (fst (expected_decode r)) && Nat.eqb w (snd (expected_decode r))
+  | None => false
+  end.
+
+Local Ltac lead_class_tac :=
+  unfold lead_class; repeat match goal with |- context [if ?c then _ else _] => destruct c eqn:? end;
+  try reflexivity; lia.
+
+Lemma roundtrip_all r : roundtrip_ok r = true.
+Proof.
+  unfold roundtrip_ok, expected_decode, encode_rune.
+  destruct (N.ltb_spec r 128) as [H1|H1].
+  { unfold decode_step. replace (lead_class r) with LAscii by (symmetry; now apply lead_class_ascii).
+    unfold valid_rune. destruct (N.ltb_spec r 55296); [|lia]. cbn. now rewrite N.eqb_refl. }
+  destruct (N.ltb_spec r 2048) as [H2|H2].
+  { unfold decode_step. replace (lead_class (192 + r / 64)) with L2 by (symmetry; lead_class_tac).
+    assert (Hc : is_cont (128 + r mod 64) = true) by (unfold is_cont, in_rng; lia). rewrite Hc.
+    unfold valid_rune. destruct (N.ltb_spec r 55296); [|lia]. cbn [orb fst snd length].
+    apply andb_true_iff; split; [apply N.eqb_eq; lia | reflexivity]. }
+  destruct (valid_rune r) eqn:Hv; cbn [negb]; [|vm_compute; reflexivity].
+  unfold valid_rune, MaxRune in Hv.
+  destruct (N.ltb_spec r 65536) as [H3|H3].
+  - (* three bytes *)
+    assert (Hc2 : is_cont (128 + r mod 64) = true) by (unfold is_cont, in_rng; lia).
+    assert (Hr : exists lo hi, lead_class (224 + r / 4096) = L3 lo hi /\
+                               in_rng lo hi (128 + (r / 64) mod 64) = true).
+    { destruct (N.eq_dec (r / 4096) 0) as [E|E0].
+      - exists 160%N, 191%N. rewrite E. split; [reflexivity | unfold in_rng; lia].
+      - destruct (N.eq_dec (r / 4096) 13) as [E|E13].
+        + exists 128%N, 159%N. rewrite E. split; [reflexivity | unfold in_rng; lia].
+        + exists 128%N, 191%N. split; [lead_class_tac | unfold in_rng; lia]. }
+    destruct Hr as (lo & hi & Hl & Hin). unfold decode_step. rewrite Hl, Hin, Hc2. cbn [andb fst snd length].
+    apply andb_true_iff; split; [apply N.eqb_eq; lia | reflexivity].
+  - (* four bytes *)
+    assert (Hc2 : is_cont (128 + (r / 64) mod 64) = true) by (unfold is_cont, in_rng; lia).
+    assert (Hc3 : is_cont (128 + r mod 64) = true) by (unfold is_cont, in_rng; lia).
+    assert (Hr : exists lo hi, lead_class (240 + r / 262144) = L4 lo hi /\
+                               in_rng lo hi (128 + (r / 4096) mod 64) = true).
+    { destruct (N.eq_dec (r / 262144) 0) as [E|E0].
+      - exists 144%N, 191%N. rewrite E. split; [reflexivity | unfold in_rng; lia].
+      - destruct (N.eq_dec (r / 262144) 4) as [E|E4].
+        + exists 128%N, 143%N. rewrite E. split; [reflexivity | unfold in_rng; lia].
+        + exists 128%N, 191%N. split; [lead_class_tac | unfold in_rng; lia]. }
+    destruct Hr as (lo & hi & Hl & Hin). unfold decode_step. rewrite Hl, Hin, Hc2, Hc3. cbn [andb fst snd length].
+    apply andb_true_iff; split; [apply N.eqb_eq; lia | reflexivity].
+Qed.
+
+(** utf8.DecodeRune(utf8.AppendRune(nil, r) ++ q) = (r, len) for every Unicode scalar value r, and (RuneError, 3)
+    for surrogates and values above U+10FFFF (which AppendRune encodes as U+FFFD) — whatever follows. *)
+Theorem decode_encode r q : decode_rune (encode_rune r ++ q) = expected_decode r.
+Proof.
+  pose proof (roundtrip_all r) as H. unfold roundtrip_ok in H.
+  destruct (decode_step (encode_rune r)) as [[r' w]|] eqn:Hd; [|discriminate].
+  apply andb_true_iff in H as [H1 H2]. apply N.eqb_eq in H1. apply Nat.eqb_eq in H2.
+  apply (decode_step_app _ q) in Hd. unfold decode_rune.
+  destruct (encode_rune r ++ q) as [|x t] eqn:E; [cbn in Hd; discriminate|]. rewrite Hd.
+  destruct (expected_decode r) as [a b]. cbn [fst snd] in *. now subst.
+Qed.
+
+Lemma valid_fuel_mono f p : valid_fuel f p = true -> valid_fuel (S f) p = true.
+Proof.
+  revert p; induction f as [|f IH]; intros p H.
+  - destruct p; [reflexivity|discriminate].
+  - destruct p as [|x t]; [reflexivity|]. cbn [valid_fuel] in *.
+    destruct (decode_step (x :: t)) as [[r w]|]; [|discriminate]. now apply IH.
+Qed.
+Lemma valid_fuel_ge f g p : f <= g -> valid_fuel f p = true -> valid_fuel g p = true.
+Proof. induction 1 as [|g Hle IH]; [auto|]. intros Hv. now apply valid_fuel_mono, IH. Qed.
+(** every encoding is valid UTF-8, and a concatenation of valid strings is valid: encode_all yields valid UTF-8 *)
+Lemma valid_fuel_app f a b : valid_fuel f a = true -> valid_utf8 b = true -> valid_fuel (f + length b) (a ++ b) = true.
+Proof.
+  revert a; induction f as [|f IH]; intros a Ha Hb.
+  - destruct a; [|discriminate]. exact Hb.
+  - destruct a as [|x t]; [cbn [app]|].
+    + eapply valid_fuel_ge; [|exact Hb]. lia.
+    + set (nm := x :: t) in *.
+      assert (Hv' : match decode_step nm with Some (_, w) => valid_fuel f (skipn w nm) | None => false end = true)
+        by exact Ha.
+      destruct (decode_step nm) as [[r w]|] eqn:Hd; [|discriminate].
+      pose proof (decode_step_shape _ _ _ Hd) as (Hw & Hwl & _ & _).
+      change (S f + length b) with (S (f + length b)). subst nm. cbn [app valid_fuel].
+      change (x :: t ++ b) with ((x :: t) ++ b). rewrite (decode_step_app _ b _ _ Hd).
+      rewrite skipn_app. replace (w - length (x :: t)) with 0 by lia. cbn [skipn]. now apply IH.
+Qed.
+
+Lemma valid_fuel_length f p : valid_fuel f p = true -> valid_utf8 p = true.
+Proof.
+  unfold valid_utf8. revert p; induction f as [|f IH]; intros p H.
+  - destruct p; [reflexivity|discriminate].
+  - destruct p as [|x t]; [reflexivity|]. cbn [valid_fuel length] in *.
+    destruct (decode_step (x :: t)) as [[r w]|] eqn:Hd; [|discriminate].
+    pose proof (decode_step_shape _ _ _ Hd) as (Hw & Hwl & _ & _). cbn [length] in Hwl.
+    apply IH in H. eapply valid_fuel_ge; [|exact H]. rewrite skipn_length. cbn [length]. lia.
+Qed.
+
+Theorem valid_utf8_app a b : valid_utf8 a = true -> valid_utf8 b = true -> valid_utf8 (a ++ b) = true.
+Proof. intros Ha Hb. eapply valid_fuel_length, valid_fuel_app; eassumption. Qed.
+
+Lemma valid_encode_rune r : valid_utf8 (encode_rune r) = true.
+Proof.
+  pose proof (roundtrip_all r) as H. unfold roundtrip_ok, expected_decode in H.
+  destruct (decode_step (encode_rune r)) as [[r' w]|] eqn:Hd; [|discriminate].
+  apply andb_true_iff in H as [_ H2]. apply Nat.eqb_eq in H2. cbn [snd] in H2.
+  unfold valid_utf8. destruct (encode_rune r) as [|x t] eqn:E; [reflexivity|].
+  cbn [length valid_fuel]. rewrite Hd. subst w. rewrite skipn_all. now destruct (length t).
+Qed.
+
+Theorem valid_encode_all rs : valid_utf8 (encode_all rs) = true.
+Proof.
+  induction rs as [|r rs IH]; [reflexivity|]. cbn [encode_all flat_map].
+  apply valid_utf8_app; [apply valid_encode_rune | exact IH].
+Qed.
